@@ -19,12 +19,178 @@ fn g(s: &Stats, k: &str) -> u64 {
 }
 
 pub fn spec(id: &str) -> Spec {
-    let general = Profile::general();
+    let mut p = Profile::general();
+    let (quick, thorough): (u64, u64) = (4000, 150_000);
     match id {
+        "C02" => {
+            p.name = "election";
+            p.voters = (3, 7);
+            p.election_tick = (3, 6);
+            p.slow_msg_pm = 150;
+            p.fault_interval_ms = 200;
+            p.w_crash = 8;
+            p.w_partition = 8;
+            p.w_clock = 4;
+            p.w_transfer = 6;
+            p.w_conf = 10;
+            p.priority_pm = 300;
+            Spec { profile: p, quick_runs: quick, thorough_runs: thorough, nontrivial: |s, _| g(s, "leaders_elected") >= 3,
+                rule: ">= 3 leaders elected (distinct terms) in the run" }
+        }
+        "C03" => Spec { profile: p, quick_runs: quick, thorough_runs: thorough,
+            nontrivial: |s, _| g(s, "leaders_elected") >= 2 && g(s, "commits") >= 2 && g(s, "chk.C03.grant_up_to_date") >= 1,
+            rule: ">= 2 leaders, >= 2 commits and >= 1 granted (pre-)vote checked" },
+        "C04" | "C06" | "C07" => {
+            p.name = "durability";
+            p.voters = (1, 5);
+            p.single_voter_pm = 250;
+            p.async_pm = 600;
+            p.lazy_pm = 200;
+            p.mix_modes_pm = 500;
+            p.fault_interval_ms = 150;
+            p.w_crash = 12;
+            p.w_partition = 2;
+            p.run_len = (300, 1500);
+            p.fsync_delay_ms = (1, 200);
+            p.paginate_pm = 500;
+            p.apply_unpersisted_pm = 300;
+            p.force_ready_pm = 60;
+            p.w_conf = 3;
+            let nt: fn(&Stats, &Stats) -> bool = match id {
+                "C04" => |s, _| g(s, "chk.C04.leader_commit_quorum_durable") >= 3 && g(s, "rounds_async") >= 1,
+                "C06" => |s, _| g(s, "crashes_losing_writes") >= 1 && g(s, "restarts") >= 1,
+                _ => |s, _| g(s, "ready_rounds") >= 20 && (g(s, "rounds_async") >= 1 || g(s, "restarts") >= 1) && g(s, "entries_applied") >= 5,
+            };
+            let rule = match id {
+                "C04" => ">= 3 leader commit advances checked against durable images and >= 1 asynchronous Ready round",
+                "C06" => ">= 1 crash that lost un-fsynced writes followed by a restart",
+                _ => ">= 20 Ready rounds with >= 1 async round or restart and >= 5 applied entries",
+            };
+            Spec { profile: p, quick_runs: quick, thorough_runs: thorough, nontrivial: nt, rule }
+        }
+        "C08" => {
+            p.name = "reads";
+            p.voters = (2, 5);
+            p.w_read = 45;
+            p.w_partition = 10;
+            p.fault_interval_ms = 250;
+            p.lease_read_pm = 0;
+            p.w_conf = 10;
+            Spec { profile: p, quick_runs: quick, thorough_runs: thorough,
+                nontrivial: |s, _| g(s, "reads_answered") >= 1 && g(s, "leaders_elected") >= 2,
+                rule: ">= 1 read answered in a run with >= 2 leaders" }
+        }
+        "C09" | "C12" => {
+            p.name = "membership";
+            p.voters = (2, 5);
+            p.spare_max = 4;
+            p.w_conf = 45;
+            p.illegal_conf_pm = 350;
+            p.run_len = (800, 3500);
+            p.lazy_pm = 350;
+            p.slow_round_pm = 200;
+            Spec { profile: p, quick_runs: quick, thorough_runs: thorough,
+                nontrivial: |s, _| g(s, "conf_changes_applied") >= 3 && (g(s, "joint_entered") >= 1 || g(s, "conf_changes_rejected_at_apply") >= 1 || g(s, "conf_proposals_neutralised") >= 1),
+                rule: ">= 3 membership changes applied and >= 1 joint configuration entered, change rejected at apply, or proposal neutralised" }
+        }
+        "C10" => {
+            p.name = "liveness";
+            p.stabilise_pm = 1000;
+            p.run_len = (200, 1500);
+            Spec { profile: p, quick_runs: 1500, thorough_runs: 40_000,
+                nontrivial: |s, f| g(s, "chk.C10.converges") >= 1 && (g(f, "crash") + g(f, "crash_losing_unfsynced_writes") + g(f, "partition") + g(f, "message_loss")) >= 1,
+                rule: "fair suffix evaluated after a prefix with >= 1 crash, partition or message loss" }
+        }
+        "C11" => {
+            p.name = "quorum";
+            p.voters = (1, 9);
+            p.spare_max = 3;
+            p.group_commit_pm = 600;
+            p.w_conf = 25;
+            p.w_knob = 12;
+            p.illegal_conf_pm = 100;
+            Spec { profile: p, quick_runs: quick, thorough_runs: thorough,
+                nontrivial: |s, _| g(s, "chk.C11.commit_index_exact") >= 50 && g(s, "chk.C11.vote_result_exact") >= 1,
+                rule: ">= 50 leader commit-index computations and >= 1 vote tally compared with the reference" }
+        }
+        "C13" | "C18" => {
+            p.name = "flow";
+            p.voters = (2, 5);
+            p.small_inflight_pm = 900;
+            p.small_msg_pm = 800;
+            p.small_uncommitted_pm = 500;
+            p.batch_append_pm = if id == "C13" { 300 } else { 200 };
+            p.w_knob = 25;
+            p.w_propose = 120;
+            p.client_interval = (1, 8);
+            p.drop_pm = 80;
+            p.dup_pm = 80;
+            p.w_crash = 2;
+            Spec { profile: p, quick_runs: quick, thorough_runs: thorough,
+                nontrivial: |s, _| g(s, "window_full_seen") >= 1 && g(s, "small_window_nonempty") >= 10,
+                rule: "a full in-flight window was observed and a small window was non-empty >= 10 times" }
+        }
+        "C14" | "C19" => {
+            p.name = "log";
+            p.voters = (3, 5);
+            p.w_compact = 25;
+            p.w_partition = 8;
+            p.w_storage_fault = 8;
+            p.async_pm = 500;
+            Spec { profile: p, quick_runs: quick, thorough_runs: thorough,
+                nontrivial: |s, _| g(s, "compactions") >= 2 && g(s, "leaders_elected") >= 2,
+                rule: ">= 2 compactions and >= 2 leaders (conflicting tails) in the run" }
+        }
+        "C15" => {
+            p.name = "snapshot";
+            p.voters = (3, 5);
+            p.w_compact = 35;
+            p.w_reqsnap = 8;
+            p.w_conf = 12;
+            p.w_crash = 8;
+            p.fault_interval_ms = 250;
+            Spec { profile: p, quick_runs: quick, thorough_runs: thorough,
+                nontrivial: |s, _| g(s, "snapshots_installed") >= 1,
+                rule: ">= 1 snapshot installed by some node" }
+        }
+        "C16" => {
+            p.name = "nondisruption";
+            p.voters = (3, 7);
+            p.pre_vote_pm = 1000;
+            p.check_quorum_pm = 1000;
+            p.hetero_pm = 0;
+            p.lease_read_pm = 0;
+            p.w_transfer = 0;
+            p.w_conf = 0;
+            p.single_voter_pm = 0;
+            p.lockstep = true;
+            p.run_len = (300, 900);
+            Spec { profile: p, quick_runs: 2500, thorough_runs: 80_000,
+                nontrivial: |s, _| g(s, "lockstep_rounds") >= 20 && g(s, "chk.C16.stable_majority_undisturbed") >= 50,
+                rule: "lock-step phase established and >= 20 lock-step rounds ran against an adversarial minority" }
+        }
+        "C17" => {
+            p.name = "transfer";
+            p.voters = (3, 5);
+            p.w_transfer = 30;
+            p.w_conf = 10;
+            p.stabilise_pm = 400;
+            p.transfer_in_suffix_pm = 1000;
+            Spec { profile: p, quick_runs: quick, thorough_runs: thorough,
+                nontrivial: |s, _| g(s, "transfers_started") >= 1 && (g(s, "timeout_now_sent") >= 1 || g(s, "transfer_aborted_by_timeout") >= 1),
+                rule: ">= 1 transfer started and >= 1 MsgTimeoutNow sent or transfer aborted by timeout" }
+        }
+        "C20" => {
+            p.name = "general+bogus";
+            p.w_bogus = 8;
+            Spec { profile: p, quick_runs: quick, thorough_runs: thorough,
+                nontrivial: |s, _| g(s, "leaders_elected") >= 2 && g(s, "commits") >= 1 && g(s, "restarts") >= 1,
+                rule: ">= 2 leaders, >= 1 commit and >= 1 restart in the run" }
+        }
         _ => Spec {
-            profile: general,
-            quick_runs: 3000,
-            thorough_runs: 60000,
+            profile: p,
+            quick_runs: quick,
+            thorough_runs: thorough,
             nontrivial: |s, _f| g(s, "leaders_elected") >= 2 && g(s, "commits") >= 1,
             rule: ">= 2 leaders elected and >= 1 entry committed in the run",
         },
